@@ -346,6 +346,8 @@ class Model:
                         component_symbol = ca.MX.sym(
                             component_name_format.format(*tuple(i + 1 for i in ind))
                         )
+                        # The new symbol is a scalar; a later expansion pass leaves it alone
+                        component_symbol._modelica_shape = ((None,),)
                         component_var = Variable(component_symbol, old_var.python_type)
                         for attribute in CASADI_ATTRIBUTES:
                             # Can't convert 3D arrays to MX, so we convert to nparray instead
